@@ -651,7 +651,7 @@ func ruleTLSUse(c *Ctx) {
 			}
 			for _, el := range cl.Elts {
 				if kv, isKv := el.(*ast.KeyValueExpr); isKv {
-					if k, isK := kv.Key.(*ast.Ident); isK && k.Name == "TLS" && cfgVars[identObj(info, kv.Value)] {
+					if k, isK := kv.Key.(*ast.Ident); isK && k.Name == "TLS" && (cfgVars[identObj(info, kv.Value)] || cfgVars[identObj(info, p.Deref(sv, kv.Value))]) {
 						ok = true
 					}
 				}
